@@ -512,7 +512,14 @@ func superviseMain(args map[string]string) {
 	known := loadKnown()
 	seenKnown := map[string]bool{}
 	seenViol := map[string]bool{}
-	sort.SliceStable(res.Findings, func(i, j int) bool { return res.Findings[i].Key < res.Findings[j].Key })
+	// concrete failures first, model/obligation disagreements after them; within each group by key
+	sort.SliceStable(res.Findings, func(i, j int) bool {
+		if res.Findings[i].Disagreement != res.Findings[j].Disagreement {
+			return !res.Findings[i].Disagreement
+		}
+		return res.Findings[i].Key < res.Findings[j].Key
+	})
+	const maxListed = 60 // distinct violation keys written out (each with its replay file); the rest is counted
 	_ = os.MkdirAll(verifHome()+"/replays", 0o755)
 	for _, f := range res.Findings {
 		id := f.Prop + "|" + f.Key
@@ -530,6 +537,9 @@ func superviseMain(args map[string]string) {
 			continue
 		}
 		seenViol[id] = true
+		if len(seenViol) > maxListed {
+			continue
+		}
 		sum := sha256.Sum256([]byte(f.Key + f.InputHex + f.Input))
 		path := fmt.Sprintf("%s/replays/%s-%s.json", verifHome(), f.Prop, hex.EncodeToString(sum[:6]))
 		rep := map[string]any{"finding": f, "replay_cmd": fmt.Sprintf("cd %s && ./check %s --replay %s", verifHome(), f.Prop, path)}
@@ -542,6 +552,9 @@ func superviseMain(args map[string]string) {
 		}
 		fmt.Printf("VIOLATION property=%s replay=%s%s\n", f.Prop, path, suffix)
 		fmt.Printf("  kind=%s key=%s input=%s\n  %s\n", f.Kind, f.Key, trunc(f.Input, 300), trunc(f.Detail, 400))
+	}
+	if len(seenViol) > maxListed {
+		fmt.Printf("  (%d more distinct violation keys of %s not listed)\n", len(seenViol)-maxListed, prop)
 	}
 	res.WallS = time.Since(start).Seconds()
 	if out := args["out"]; out != "" {
